@@ -79,6 +79,7 @@ class Job:
         self.terminal_at = None         # simulated time at which the job reached a terminal state
         self.ready_at = 0.0             # earliest simulated time at which the job can finish ("job-slow")
         self.cancel_at = 0.0            # earliest simulated time at which CANCELLING becomes CANCELLED
+        self.created_step = -1          # simulator event number at which the server created the job
 
 
 class ModelQuantumEngine:
@@ -95,7 +96,11 @@ class ModelQuantumEngine:
         self.jobs: Dict[str, Job] = {}
         self.failing_jobs = set(failing_jobs)
         self.streams: List[Stream] = []
+        self.open_failures = 0
+        self.orphaned_request_iterators = 0
+        self.clean_closes: List = []            # (epoch, message ids in flight) of streams the server closed with OK
         self.cancel_requests: List[str] = []
+        self.cancel_steps: Dict[str, List[int]] = {}    # job name -> event numbers at which a cancel RPC arrived
         self.all_message_ids: List[str] = []
         self.requests_log: List = []            # (epoch, message_id, kind, job_name, on_dead_stream)
         self.final_delivered: Dict[str, List] = {}   # job name -> [(message_id, kind)] delivered into q
@@ -180,6 +185,25 @@ class ModelQuantumEngine:
         if st.alive:
             st.unanswered.add(mid)
 
+    def _close_ok(self, st: Stream) -> None:
+        """The server ends a live stream normally (status OK: connection draining, maximum stream age) although
+        requests read on it are unanswered: they never will be, on this stream."""
+        self.fault_budget -= 1
+        self.ctx.fault("close-ok")
+        waiting = sorted((m for m in st.unanswered if self.is_subscribed(m)), key=int)
+        self.clean_closes.append((st.epoch, waiting))
+        if not st.half_closed:
+            # the client's request iterator for this stream is still running and nothing will stop it
+            self.orphaned_request_iterators += 1
+        if waiting:
+            self.ctx.probe("w3:clean-close-with-request-in-flight")
+        self.ctx.event("close-ok", st.epoch, sorted(st.unanswered, key=int))
+        st.outbox.clear()
+        st.unanswered = set()
+        for job in self.jobs.values():
+            job.waiters = [(s, m) for (s, m) in job.waiters if s is not st]
+        self._end_stream(st)
+
     def _end_stream(self, st: Stream) -> None:
         """Normal end of a stream (response iterator finishes without error)."""
         if st.ended:
@@ -223,6 +247,8 @@ class ModelQuantumEngine:
                     for kind in ("break-retryable", "break-nonretryable", "break-foreign"):
                         if self.enabled_faults.get(kind):
                             evs.append((f"{kind}:{st.epoch}", (lambda s=st, k=kind: self._break(s, k))))
+                    if self.enabled_faults.get("close-ok"):
+                        evs.append((f"close-ok:{st.epoch}", (lambda s=st: self._close_ok(s))))
         return evs
 
     def _reply(self, st: Stream, mid: str, **body) -> None:
@@ -318,6 +344,7 @@ class ModelQuantumEngine:
 
     def _new_job(self, jname: str) -> "Job":
         job = Job(jname, jname in self.failing_jobs)
+        job.created_step = self.sim.steps
         d = self.job_duration(jname) if self.job_duration is not None else 0.0
         job.ready_at = self.sim.now + d
         if d > 0:
@@ -331,6 +358,7 @@ class ModelQuantumEngine:
 
     def cancel_job(self, name: str) -> None:
         self.cancel_requests.append(name)
+        self.cancel_steps.setdefault(name, []).append(self.sim.steps)
         self.ctx.event("cancel-rpc", name.rsplit("/", 1)[-1])
         job = self.jobs.get(name)
         if job is not None and job.state == "RUNNING":
@@ -521,6 +549,17 @@ class _Client:
             m.connecting.append(fut)
             m.ctx.probe("w3:connect-stalled")
             await fut
+        if (m.fault_budget > 0 and not m.sim.fair and m.enabled_faults.get("open-fail")
+                and m.sim.tape.chance(1, 3, "open-fails?")):
+            # the call cannot be established (server or network down): a retryable failure before any request
+            # iterator was consumed
+            m.fault_budget -= 1
+            m.open_failures += 1
+            m.ctx.fault("open-fail")
+            m.ctx.event("open-fail", m.open_failures)
+            await asyncio.sleep(0)
+            raise RETRYABLE_BREAKS[m.sim.tape.draw(len(RETRYABLE_BREAKS), "which-retryable")](
+                f"injected failure to open stream (#{m.open_failures})")
         st = m.open_stream(requests)
 
         async def response_iterator():
